@@ -42,7 +42,7 @@ def garbage (seed : Nat) (f : Word) (i : Nat) : Word :=
   let z := (z ^^^ (z >>> 30)) * 0xbf58476d1ce4e5b9
   let z := (z ^^^ (z >>> 27)) * 0x94d049bb133111eb
   let z := z ^^^ (z >>> 31)
-  BitVec.ofNat 64 (z ||| 1).toNat
+  BitVec.ofNat 64 (if z == 0 then 1 else z).toNat
 
 /-- One expected mapping, according to the history of successful calls. -/
 structure AbsMap where
